@@ -134,6 +134,10 @@ var afterLastColonOfParam = regexp.MustCompile(`^\$\d\[\(strings\.LastIndex(Byte
 var lastColon = regexp.MustCompile(`^strings\.LastIndex(Byte)?\(\$0,(":"|58)\)$`)
 
 func runC08(c *Ctx) {
+	// values are named after the expression that produced them, also when an unexported helper with one success exit
+	// stands between the producer and the use
+	c.inlineHelpers = true
+	defer func() { c.inlineHelpers = false }()
 	// builders marshal and parsers decode the same models: their member names are the wire format's
 	c.wireNames("C08.K3", "CreateRequest", "SuffixDataModel", "DeltaModel", "UpdateRequest", "DeactivateRequest", "RecoverRequest", "UpdateSignedDataModel", "RecoverSignedDataModel", "DeactivateSignedDataModel")
 	c.Min("C08.K3", 40)
@@ -193,11 +197,19 @@ func runC08(c *Ctx) {
 		var deltaPath, hashPath string
 		if typ != "deactivate" {
 			dT := c.NamedType(pModel, "DeltaModel")
-			das := allocsOf(b, dT)
+			// the delta object is the one that is hashed: found from the CalculateModelMultihash call, in the builder
+			// or in an unexported helper it calls (values rendered in the builder's frame, one-exit helpers inlined)
+			hts := c.treeCalls(b, nil, 0, func(cl *ssa.Call, env Env) bool { return cl.Call.StaticCallee() == cmm })
+			var das []*ssa.Alloc
+			var denv Env
+			if len(hts) == 1 {
+				denv = hts[0].env
+				das = allocsOf(hts[0].fn, dT)
+			}
 			// several literals are tolerated when they are field-by-field identical (same serialisation)
 			same := len(das) >= 1
 			for _, a := range das {
-				if fmt.Sprint(c.fieldTable(a, nil)) != fmt.Sprint(c.fieldTable(das[0], nil)) {
+				if fmt.Sprint(c.fieldTable(a, denv)) != fmt.Sprint(c.fieldTable(das[0], denv)) {
 					same = false
 				}
 			}
@@ -207,23 +219,23 @@ func runC08(c *Ctx) {
 			}
 			isDelta := func(p string) bool {
 				for _, a := range das {
-					if c.Path(a, nil) == p {
+					if c.Path(a, denv) == p {
 						return true
 					}
 				}
 				return false
 			}
-			deltaPath = c.Path(das[0], nil)
-			c.Check("C08.P1", typ+":request-carries-hashed-delta", len(rf["Delta"]) == 1 && isDelta(rf["Delta"][0]), b.Pos(), fmt.Sprintf("request.Delta = %v (the hashed delta object %s)", rf["Delta"], deltaPath))
-			hs := callsTo(b, cmm)
-			okH := len(hs) == 1 && isDelta(c.Path(hs[0].Call.Args[0], nil)) && c.Path(hs[0].Call.Args[1], nil) == "$0.MultihashCode"
-			c.Check("C08.P1", typ+":delta-hash", okH, b.Pos(), "deltaHash = CalculateModelMultihash(delta, info.MultihashCode)")
-			if len(hs) == 1 {
-				hashPath = c.Path(hs[0], nil) + "#0"
-				h0 := hs[0]
-				c.CheckGuard("C08.P1", typ+":delta-hash-error-propagated", b, nil, &GCheck{Name: "CalculateModelMultihash ok", MatchCall: func(c *Ctx, call *ssa.Call, env Env) bool { return call == h0 }})
+			deltaPath = c.Path(das[0], denv)
+			if reqAlloc != nil {
+				rf = c.fieldTable(reqAlloc, nil)
 			}
-			df := c.fieldTable(das[0], nil)
+			c.Check("C08.P1", typ+":request-carries-hashed-delta", len(rf["Delta"]) == 1 && isDelta(rf["Delta"][0]), b.Pos(), fmt.Sprintf("request.Delta = %v (the hashed delta object %s)", rf["Delta"], deltaPath))
+			h0 := hts[0].call
+			okH := isDelta(c.Path(h0.Call.Args[0], denv)) && c.Path(h0.Call.Args[1], denv) == "$0.MultihashCode"
+			c.Check("C08.P1", typ+":delta-hash", okH, b.Pos(), "deltaHash = CalculateModelMultihash(delta, info.MultihashCode)")
+			hashPath = c.Path(h0, denv) + "#0"
+			c.CheckGuard("C08.P1", typ+":delta-hash-error-propagated", b, nil, &GCheck{Name: "CalculateModelMultihash ok", MatchCall: func(c *Ctx, call *ssa.Call, env Env) bool { return call == h0 }})
+			df := c.fieldTable(das[0], denv)
 			c.Check("C08.P1", typ+":delta.UpdateCommitment", len(df["UpdateCommitment"]) == 1 && df["UpdateCommitment"][0] == "$0.UpdateCommitment", b.Pos(), fmt.Sprintf("delta.UpdateCommitment = %v", df["UpdateCommitment"]))
 		}
 		if typ == "create" {
@@ -316,6 +328,17 @@ func runC08(c *Ctx) {
 		if len(keys) == 0 {
 			for _, t := range c.constSetTests(vs, nil, func(p string) bool { return strings.Contains(p, "range(") }) {
 				keys = t.set
+			}
+		}
+		// or a predicate helper that is handed the header name
+		if len(keys) == 0 {
+			for _, g := range c.helpersOf(vs, 1) {
+				if len(g.Params) != 1 || !boolResult(g) {
+					continue
+				}
+				for _, t := range c.constSetTests(g, nil, func(p string) bool { return p == "$0" }) {
+					keys = t.set
+				}
 			}
 		}
 		c.Check("C08.X2", "client-whitelist", eqStrs(keys, []string{"alg", "kid"}), vs.Pos(), fmt.Sprintf("client signer-header whitelist %v (parser's is checked to be {alg,kid} by C02.G4)", keys))
@@ -452,8 +475,6 @@ func runC08(c *Ctx) {
 	// ---- P3 sidetree client builders
 	const pST = "vdr/sidetreelongform/sidetree"
 	grv := c.Fn("commitment", "GetRevealValue")
-	c.inlineHelpers = true
-	defer func() { c.inlineHelpers = false }()
 	// the options parameter is found by its type (…/option/<kind>.Opts), the multihash code is the options' own
 	// MultiHashAlgorithm — read in the builder, or handed to it by every caller as a separate argument
 	var optsOfD func(f *ssa.Function, d int) (string, map[string]bool)
